@@ -61,12 +61,17 @@ def run(index, tier="quick", seed=0) -> Result:
     for node in ast.walk(fn.node):
         if isinstance(node, ast.Assign) and isinstance(node.targets[0], ast.Name) and node.targets[0].id in NAMES \
                 and isinstance(node.value, ast.Call):
-            kw = {k.arg: k.value for k in node.value.keywords}
             callee = ast.unparse(node.value.func)
-            if "sub" in kw:
-                subs[node.targets[0].id] = (callee, fold(kw["sub"]), node.lineno)
+            cands = [k.value for k in node.value.keywords if isinstance(k.value, ast.List)] + \
+                    [a for a in node.value.args if isinstance(a, ast.List)]
+            if cands:
+                subs[node.targets[0].id] = (callee, fold(cands[0]), node.lineno)
     if len(subs) < 6:
         raise AnalysisError(f"only {len(subs)} inertia components with a sub= index list found (6 confirmed)")
+    diag_callees = {subs[n_][0] for n_ in ("i_xx", "i_yy", "i_zz") if n_ in subs}
+    off_callees = {subs[n_][0] for n_ in ("i_xy", "i_xz", "i_yz") if n_ in subs}
+    diag_kernel = sorted(diag_callees)[0] if len(diag_callees) == 1 else "i_nn"
+    off_kernel = sorted(off_callees)[0] if len(off_callees) == 1 else "i_nm"
     for name, (callee, sub, line) in sorted(subs.items()):
         a, b = NAMES[name]
         want = sorted(set(range(3)) - {a}) if a == b else [a, b]
@@ -77,61 +82,72 @@ def run(index, tier="quick", seed=0) -> Result:
         elif sorted(got) != sorted(want):
             res.bad("AXI", k, f"{fn.file}:{line}", f"{name} integrates with sub={got}; its definition needs {want} "
                     f"({'the two other axes' if a == b else 'its own two axes'})")
-        elif (a == b) != (callee == "i_nn"):
+        elif (a == b) != (callee == diag_kernel):
             res.bad("AXI", k + ":kernel", f"{fn.file}:{line}", f"{name} uses kernel {callee}")
         else:
             res.ok("AXI", k, sample={"component": name, "kernel": callee, "sub": got})
     # kernels: same index on the normal and on the quadrature coordinate
-    for kname in ("i_nn", "i_nm"):
+    for kname, role in ((diag_kernel, "diag"), (off_kernel, "off")):
         kn = [x for x in ast.walk(fn.node) if isinstance(x, ast.FunctionDef) and x.name == kname]
         if not kn:
-            res.bad("AXI", f"kernel:{kname}:missing", where, f"kernel {kname} not found")
+            res.bad("AXI", f"kernel:{role}:missing", where, f"kernel {kname} not found")
             continue
         kn = kn[0]
-        k = f"ConvexPolyhedron._compute_inertia_tensor:{kname}"
-        if kname == "i_nn":
-            e = [c for c in ast.walk(kn) if isinstance(c, ast.Call) and ast.unparse(c.func) == "np.einsum"]
+        subp = kn.args.args[-1].arg          # the index-list parameter (last)
+        k = f"ConvexPolyhedron._compute_inertia_tensor:kernel:{role}"
+        es = [c for c in ast.walk(kn) if isinstance(c, ast.Call) and ast.unparse(c.func) == "np.einsum"]
+
+        def idx_of(txt):
+            """which element(s) of the index list an operand selects: 'all' | '0' | '1' | None"""
+            t = txt.replace(" ", "")
+            if f"{subp}[0]" in t and f"{subp}[1]" not in t:
+                return "0"
+            if f"{subp}[1]" in t and f"{subp}[0]" not in t:
+                return "1"
+            if subp in t:
+                return "all"
+            return None
+
+        ret_div = None
+        neg = False
+        for r in ast.walk(kn):
+            if isinstance(r, ast.Return) and isinstance(r.value, ast.BinOp) and isinstance(r.value.op, ast.Div):
+                ret_div = fold(r.value.right)
+                neg = isinstance(r.value.left, ast.UnaryOp) and isinstance(r.value.left.op, ast.USub)
+        if role == "diag":
             ok = False
-            if e:
-                ops = [ast.unparse(a_) for a_ in e[0].args[1:]]
-                n_ops = [o for o in ops if o.startswith("nt[") or o.startswith("n[")]
-                q_ops = [o for o in ops if o.startswith("q3[")]
-                ok = len(n_ops) == 1 and len(q_ops) == 1 and "sub" in n_ops[0] and "sub" in q_ops[0] and "[sub" not in q_ops[0].replace("[:, sub", "")
-                ok = ok and "sub[" not in n_ops[0] and "sub[" not in q_ops[0]
-            div6 = any(isinstance(r, ast.Return) and isinstance(r.value, ast.BinOp) and isinstance(r.value.op, ast.Div)
-                       and fold(r.value.right) == 6 for r in ast.walk(kn))
-            if ok and div6:
+            if len(es) == 1:
+                ops = [ast.unparse(a_) for a_ in es[0].args[1:]]
+                sel = [o for o in ops if idx_of(o) == "all"]
+                # exactly two operands are selected by the whole index list: the normal components and the cubed coordinate
+                ok = len(sel) == 2
+            if ok and ret_div == 6:
                 res.ok("AXI", k)
             elif not ok:
-                res.bad("AXI", k, f"{fn.file}:{kn.lineno}", "i_nn: the normal component and the cubed quadrature coordinate must be selected by the same index list")
+                res.bad("AXI", k, f"{fn.file}:{kn.lineno}", f"{kname}: the normal component and the cubed quadrature coordinate must be selected by the same index list")
             else:
-                res.bad("QUAD", k + ":const", f"{fn.file}:{kn.lineno}", "i_nn: divergence-theorem constant must be 1/6 (= 1/3 from d(x^3/3)/dx times 1/2 from the doubled area)")
+                res.bad("QUAD", k + ":const", f"{fn.file}:{kn.lineno}", f"{kname}: divergence-theorem constant must be 1/6 (= 1/3 from d(x^3/3)/dx times 1/2 from the doubled area)")
         else:
-            es = [c for c in ast.walk(kn) if isinstance(c, ast.Call) and ast.unparse(c.func) == "np.einsum"]
             good = 0
             for c in es:
                 ops = [ast.unparse(a_).replace(" ", "") for a_ in c.args[1:]]
-                prod = [o for o in ops if "*" in o]
-                nrm = [o for o in ops if o.startswith("n[")]
+                prod = [o for o in ops if "*" in o and subp in o]
+                nrm = [o for o in ops if "*" not in o and idx_of(o) in ("0", "1")]
                 if len(prod) == 1 and len(nrm) == 1:
-                    sq = [t for t in prod[0].split("*") if t.startswith("q2[")]
-                    if len(sq) == 1:
-                        idx_sq = sq[0][sq[0].index("sub["):sq[0].index("sub[") + 6]
-                        idx_n = nrm[0][nrm[0].index("sub["):nrm[0].index("sub[") + 6] if "sub[" in nrm[0] else None
-                        if idx_sq == idx_n:
-                            good += 1
-            div8 = any(isinstance(r, ast.Return) and isinstance(r.value, ast.BinOp) and isinstance(r.value.op, ast.Div)
-                       and fold(r.value.right) == 8 for r in ast.walk(kn))
-            neg = any(isinstance(r, ast.Return) and isinstance(r.value, ast.BinOp) and isinstance(r.value.left, ast.UnaryOp)
-                      and isinstance(r.value.left.op, ast.USub) for r in ast.walk(kn))
-            if good == 2 and div8 and neg:
+                    fa = prod[0].split("*")
+                    # the squared coordinate is the factor that is itself a power / a "squared" array: decide by
+                    # which factor's array also occurs cubed/squared in the enclosing function's definitions
+                    sq = [t for t in fa if _is_squared_operand(t, fn.node)]
+                    if len(sq) == 1 and idx_of(sq[0]) == idx_of(nrm[0]):
+                        good += 1
+            if good == 2 and ret_div == 8 and neg:
                 res.ok("AXI", k)
             elif good != 2:
-                res.bad("AXI", k, f"{fn.file}:{kn.lineno}", "i_nm: in each of the two terms the normal component must carry the index of the *squared* coordinate")
+                res.bad("AXI", k, f"{fn.file}:{kn.lineno}", f"{kname}: in each of the two terms the normal component must carry the index of the *squared* coordinate")
             elif not neg:
-                res.bad("AXI", k + ":sign", f"{fn.file}:{kn.lineno}", "i_nm: products of inertia carry a minus sign (I_ab = -int a b dV)")
+                res.bad("AXI", k + ":sign", f"{fn.file}:{kn.lineno}", f"{kname}: products of inertia carry a minus sign (I_ab = -int a b dV)")
             else:
-                res.bad("QUAD", k + ":const", f"{fn.file}:{kn.lineno}", "i_nm: divergence-theorem constant must be 1/8")
+                res.bad("QUAD", k + ":const", f"{fn.file}:{kn.lineno}", f"{kname}: divergence-theorem constant must be 1/8")
     probs = check_display(matrix_display(fn.node))
     if probs:
         res.bad("AXI", "ConvexPolyhedron._compute_inertia_tensor:display", where, "returned matrix: " + "; ".join(probs))
@@ -169,6 +185,18 @@ def run(index, tier="quick", seed=0) -> Result:
     return res
 
 
+def _is_squared_operand(term, fn_node):
+    """is the array named at the head of `term` defined as <something> ** 2 in the enclosing function
+    (or passed under a parameter bound to such a name)?"""
+    name = term.split("[")[0]
+    squared = set()
+    for n in ast.walk(fn_node):
+        if isinstance(n, ast.Assign) and isinstance(n.targets[0], ast.Name) and isinstance(n.value, ast.BinOp) \
+                and isinstance(n.value.op, ast.Pow) and fold(n.value.right) == 2:
+            squared.add(n.targets[0].id)
+    return name in squared
+
+
 def _pax(res, index):
     utils = index.module("coxeter.shapes.utils")
     fn = utils.functions.get("translate_inertia_tensor")
@@ -196,8 +224,12 @@ def _pax(res, index):
     form_ok = False
     if rets:
         # normal form over opaque atoms
+        keep = set(fn.params) | {"inner", "outer"}
+
         def ev(n):
             if isinstance(n, ast.Name):
+                if n.id in env and n.id not in keep:
+                    return ev(env[n.id])     # a local temporary: look through it
                 return Poly.atom(n.id)
             if isinstance(n, ast.Call):
                 return Poly.atom(ast.unparse(n).replace(" ", ""))
